@@ -420,7 +420,7 @@ def main():
     chk.merge(core.parallel(shard, core.interleave(cases, core.NPROC * 2)))
     chk.merge(core.parallel(shard, core.interleave(chains, core.NPROC * 2)))
     chk.assumptions += ["astropy units/Time; twobody's KeplerOrbit is the orbit object get_orbit returns (compared with the independent reference solver)"]
-    return chk.finish()
+    return chk.finish(run_case)
 
 
 def replay(doc):
